@@ -259,7 +259,9 @@ type QueryOpts struct {
 var AllLeafKinds = []string{"term", "term", "term", "match", "matchphrase", "multiphrase", "prefix", "wildcard", "regexp", "fuzzy",
 	"termrange", "numrange", "daterange", "geobox", "geodist", "all", "none", "kwterm"}
 
-var regexpPool = []string{"a+", "a.*c", "(a|b)c?", "[ab]+", "b*", "a.c", "(ab)+", "c[^a]", "..", "a|b|c", "[a-c]{2}", ".*b"}
+var regexpPool = []string{"a+", "a.*c", "(a|b)c?", "[ab]+", "b*", "a.c", "(ab)+", "c[^a]", "..", "a|b|c", "[a-c]{2}", ".*b",
+	// flags in force for all or part of the pattern (the literal-prefix shortcut must respect them)
+	"(?i)ab.*", "(?i)A", "(?i)a[bc]?", "a(?i)B.*", "(?i:A)b*", "(?i)abc", "(?i)[A]b.?", "(?s)a.c", "(?i)B+"}
 
 // GenLeaf generates a leaf query of the kind.
 func GenLeaf(r *rand.Rand, co *Corpus, kind string) *Q {
